@@ -137,7 +137,7 @@ def chain(case, P, d):
 
 # ----------------------------------------------------------------------------------------------- conditional pipelines
 COND_PIPES = ["joint_eval", "marginal_eval", "bayes_posterior", "set_y_evidence", "cond_entropies", "log_conditional",
-              "condition_on_dims", "kalman_scan", "lrbf_marginal", "lsem_log_conditional_y", "het_moments", "het_bound", "truncated"]
+              "condition_on_dims", "kalman_scan", "lrbf_marginal", "lsem_log_conditional_y", "het_moments", "het_bound", "truncated", "nn_control"]
 
 
 def cond_param_shapes(pipe, Dx, Dy, kind):
@@ -156,6 +156,8 @@ def cond_param_shapes(pipe, Dx, Dy, kind):
         sh.update({"HM": (1, Dy, Dx), "Hb": (1, Dy), "HA": (1, Dy, Dy), "HW": (1, Dx + 1)})
     if pipe == "kalman_scan":
         sh.update({"KA": (1, Dx, Dx), "Kb": (1, Dx), "KQ": (1, Dx, Dx)})
+    if pipe == "nn_control":
+        sh = {"pG": (1, Dx, Dx), "pmu": (1, Dx), "SG": (1, Dy, Dy), "NW1": (2, 3), "Nb1": (3,), "NW2": (3, Dy * (Dx + 1)), "Nb2": (Dy * (Dx + 1),), "Nu": (1, 2)}
     return sh
 
 
@@ -185,6 +187,15 @@ def cond_pipe(case, P, d):
     Dx, Dy = case["Dx"], case["Dy"]
     x, y = d[:, :Dx], d[:, Dx:]
     px = pdf.GaussianPDF(Sigma=spd(P["pG"]), mu=P["pmu"])
+    if pipe == "nn_control":
+        # NN-controlled conditional used inside the transformed function (it holds a Python callable, so it is not a pytree leaf)
+        ctrl = lambda u: jnp.tanh(u @ P["NW1"] + P["Nb1"]) @ P["NW2"] + P["Nb2"]
+        nn = conditional.NNControlGaussianConditional(Sigma=spd(P["SG"]), num_cond_dim=Dx, num_control_dim=2, control_func=ctrl)
+        u = P["Nu"]
+        j = nn.affine_joint_transformation(px, u=u)
+        post = nn.affine_conditional_transformation(px, u=u).condition_on_x(y[:1])
+        return jnp.concatenate([j.evaluate_ln(d).ravel(), post.mu.ravel(), nn.integrate_log_conditional_y(px, u=u, y=y[:1]).ravel(),
+                                nn.set_y(y[:1], u=u).evaluate_ln(x).ravel()])
     if pipe in ("lrbf_marginal", "lsem_log_conditional_y", "het_moments", "het_bound", "truncated"):
         c = None
     else:
